@@ -1901,21 +1901,22 @@ class Method:
             (self.output, str, "next_page_token"),
         ):
             field = source.fields.get(name, None)
-            if not field or field.type != source_type:
+            if not field or field.repeated or field.type != source_type:
                 return None
 
-        # The request must have page_size (or max_results if legacy API)
-        page_fields = (
-            self.input.fields.get("max_results", None),
-            self.input.fields.get("page_size", None),
+        # The request must have an integer page_size, or (legacy APIs) a
+        # max_results field that is an integer or a 32-bit wrapper type.
+        page_size = self.input.fields.get("page_size", None)
+        max_results = self.input.fields.get("max_results", None)
+        has_page_size = bool(
+            page_size and not page_size.repeated and page_size.type == int
         )
-        page_field_size = next((field for field in page_fields if field), None)
-
-        if not page_field_size:
-            return None
-
-        # Confirm whether the paged_field_size is an allowed type.
-        if not self._validate_paged_field_size_type(page_field_size=page_field_size):
+        has_max_results = bool(
+            max_results
+            and not max_results.repeated
+            and self._validate_paged_field_size_type(page_field_size=max_results)
+        )
+        if not (has_page_size or has_max_results):
             return None
 
         # Return the first repeated field.
